@@ -5,6 +5,7 @@ PLAN = dict(
           "stateful request header in random letter case; Content-Type absent; Cache-Control directive subsets in random case/spacing over 1-2 field values; "
           "Expires; status incl. unknown and not-cacheable-by-default codes; uncached/stateful response header in random letter case), signed AFTER the "
           "fields are set, verified directly or after write+read. grid: every single fault per version, every banned header in 3 spellings, look-alike "
+          "Sub-check doors: IsUncachedHeader / IsStatefulRequestHeader / VerifyUncachedHeader against the drafts' lists for every listed name and near-miss in every single-letter case variant, canonical and raw key form, with and without values, first / middle / last among other fields. "
           "harmless names, status 100..599 x 7 freshness variants. Oracle: Verify verdict == refPolicy(parameters) in both directions. Non-trivial: "
           "all-good cases, exactly one violated condition, or a boundary instant."),
     assumptions=TRUSTED + ["Cache-Control values containing quoted-string arguments are read twice, cut at every comma (the repository's documented simplification) and with RFC 7230 quoted-strings; the storable-by-a-shared-cache condition is judged only where both readings give the same verdict, the other cases are skipped and counted as cache-control-reading-ambiguous", "'status understood by the cache' = known to net/http (the code's documented notion)",
